@@ -31,7 +31,9 @@ RULE = ("seeded random linear class chains (depth 1-4, plain non-attrs classes i
         "raising a marked exception (plain / KeyError / AttributeError subclass, identity checked), and with "
         "validators globally disabled; after EACH step compared: outcome (ok / marker index / exception class), "
         "every name whose value changed with its new value, the callbacks of the step with their arguments.  "
-        "define-default classes: o.f = x against a fresh C(f=x) (value and callbacks).  Each case is evaluated "
+        "assigned values are fresh tokens or the very object currently stored under the name (obj.f = obj.f); "
+        "converters and user hooks include ones that return None (symbols nil_*, compared under the interpretation "
+        "nil_* -> None).  define-default classes: o.f = x against a fresh C(f=x) (value and callbacks).  Each case is evaluated "
         "against the faithful model and against the property-level reference resolution.  distinct = distinct case "
         "term; non-trivial = rejected definition or class whose resolved __setattr__ is not object's")
 EXTRA_TRUSTED = ["the field tuple attr.fields(cls), the MRO __slots__ and __dict__ presence of the class under test are "
